@@ -3,7 +3,10 @@ Decided statically (level: proof of the lane maps): for every shipped (storage, 
 L-get, L-set, L-slice, L-rc, L-extL/R, L-rank, L-ham, L-at/gc, L-empty, L-len (Appendix C of DESIGN.md) hold for ALL
 2^(2K) k-mer values and all in-range positions / run lengths (positions and lengths are partitioned exhaustively, the
 k-mer is one abstract bit-vector); the mask ladders reverse_by_twos/lower_of_two on u8..u128; and the default
-constructors/renderers (from_bytes, from_ascii, to_string, kmers_from_*) feed those primitives in lockstep.
+constructors/renderers (from_bytes, from_ascii, to_string, kmers_from_*) feed those primitives in lockstep, and — exactly,
+on the monomorphic instance of every k-mer type — from_bytes / from_ascii / to_string / kmers_from_bytes / kmers_from_ascii and
+the immutable writers MerImmut::set / set_slice (runs up to 32 bases) produce the specified lanes (the byte tables
+base_to_bits / bits_to_base being uninterpreted here and decided in C16.1).
 This decides the bit-level behaviour of the listed operations, by abstract interpretation of the monomorphic MIR;
 nothing is executed and no k-mer value is enumerated."""
 from .. import lemmas, structural, dt_seq
@@ -20,3 +23,5 @@ def run(F, rep):
     lemmas.ladder_lemmas(F, rep)
     common.run_kmer_lemmas(F, rep, {"len", "empty", "get", "set", "slice", "rc", "ext", "rank", "ham", "atgc"})
     dt_seq.kmer_default_tables(F, rep, "C10.defaults")
+    for ty in common.kmer_type_names(F):
+        lemmas.kmer_default_lemmas(F, rep, ty, rule="L-default")
